@@ -318,7 +318,90 @@ static Grid build_grid(Rng& r, const Constraint_System& cs, dimension_type d) {
   return g;
 }
 
-static void one_case(Rng& r, long id, dimension_type maxn) {
+// Planted family "guarded_decrement": x_i' = x_i - (positive combination of other variables), the
+// guard (= pset_before exactly) bounds those variables from below by a positive constant and x_i
+// from below; the remaining variables may increase (x_j' = x_j + k, x_j' >= x_j) or are free.
+// The size of the decrement is known only through the guard, so the Farkas multipliers of the
+// guard rows are necessarily non-zero in every encoding.  mu = x_i (scaled) is a ranking function.
+static Rel gen_guarded(Rng& r, dimension_type n, bool nnc) {
+  Rel R; R.n = n; R.tmpl = "guarded_decrement";
+  dimension_type i = r.below(n);
+  std::vector<long> a(n, 0);
+  bool any = false;
+  for (dimension_type j = 0; j < n; ++j) if (j != i && r.chance(1, 2)) { a[j] = r.range(1, 2); any = true; }
+  if (!any) { dimension_type j = (i + 1 + r.below(n - 1)) % n; a[j] = r.range(1, 2); }
+  Linear_Expression dec;
+  for (dimension_type j = 0; j < n; ++j) if (a[j]) dec += Coefficient(a[j]) * XX(n, j);
+  unsigned variant = r.below(16);           // 0: decrement may vanish (no ranking); 1: x_i unbounded below
+  if (r.chance(3, 4)) R.after.insert(XP(i) == XX(n, i) - dec);
+  else R.after.insert(XP(i) <= XX(n, i) - dec);
+  for (dimension_type j = 0; j < n; ++j) if (j != i) {
+    unsigned k = r.below(5);
+    if (k == 0) R.after.insert(XP(j) == XX(n, j) + r.range(0, 2));
+    else if (k == 1) R.after.insert(XP(j) >= XX(n, j));
+    else if (k == 2) R.after.insert(XP(j) == XX(n, j));
+    else if (k == 3 && n > 2) { dimension_type l = (j + 1) % n; if (l != i) R.after.insert(XP(j) >= XX(n, j) + XX(n, l)); }
+    // k == 4: x_j' unconstrained
+  }
+  for (dimension_type j = 0; j < n; ++j) if (a[j]) {
+    long g = (variant == 0) ? 0 : r.range(1, 2);
+    Coefficient den = (variant != 0 && r.chance(1, 5)) ? 2 : 1;   // x_j >= 1/2: decrease >= a_j/2
+    Linear_Expression e = den * Variable(j) - g;
+    R.before.insert((nnc && variant != 0 && r.chance(1, 4)) ? (e > 0) : (e >= 0));
+  }
+  if (variant != 1) R.before.insert(Variable(i) >= r.range(-2, 2));
+  if (r.chance(1, 4)) {                      // an extra guard on a variable that is not involved
+    dimension_type j = r.below(n);
+    if (j != i && !a[j]) R.before.insert(Variable(j) <= r.range(0, 5));
+  }
+  fix_dims(R);
+  return R;
+}
+
+static void emit_case(Rng& r, long id, int kc, const char* kind, const Rel& R, unsigned form) {
+  const dimension_type n = R.n;
+  {
+    OS o; o << "case " << id << " " << kind << " " << form << " " << n << " " << R.tmpl;
+    J.line(o.str());
+  }
+  const dimension_type d = 2 * n;
+  try {
+    if (form == 1) {
+      Constraint_System all = joined(R);
+      switch (kc) {
+        case 0: run_form1(build<C_Polyhedron>(closed_only(all, d), d, true), n); break;
+        case 1: run_form1(build<NNC_Polyhedron>(all, d, true), n); break;
+        case 2: run_form1(build<BDS>(closed_only(all, d), d, false), n); break;
+        case 3: run_form1(build<OSH>(closed_only(all, d), d, false), n); break;
+        case 4: run_form1(build<Rational_Box>(all, d, false), n); break;
+        default: run_form1(build_grid(r, all, d), n); break;
+      }
+    } else {
+      switch (kc) {
+        case 0: run_form2(build<C_Polyhedron>(closed_only(R.before, n), n, true), build<C_Polyhedron>(closed_only(R.after, d), d, true), n); break;
+        case 1: run_form2(build<NNC_Polyhedron>(R.before, n, true), build<NNC_Polyhedron>(R.after, d, true), n); break;
+        case 2: run_form2(build<BDS>(closed_only(R.before, n), n, false), build<BDS>(closed_only(R.after, d), d, false), n); break;
+        case 3: run_form2(build<OSH>(closed_only(R.before, n), n, false), build<OSH>(closed_only(R.after, d), d, false), n); break;
+        case 4: run_form2(build<Rational_Box>(R.before, n, false), build<Rational_Box>(R.after, d, false), n); break;
+        default: { Grid gb = build_grid(r, R.before, n); Grid ga = build_grid(r, R.after, d); run_form2(gb, ga, n); break; }
+      }
+    }
+  } catch (...) {
+    J.line(std::string("x build ") + pplv::exc_class());
+  }
+  J.line("end");
+}
+
+// one generated relation; returns the number of cases emitted (the planted family is shown in BOTH forms)
+static long one_case(Rng& r, long id, dimension_type maxn) {
+  if (r.chance(1, 6)) {
+    bool nnc = r.chance(1, 4);
+    dimension_type n = 2 + r.below(2);       // n = 2 or 3, also in the quick tier
+    Rel R = gen_guarded(r, n, nnc);
+    emit_case(r, id, nnc ? 1 : 0, nnc ? "NNC" : "C", R, 2);
+    emit_case(r, id + 1, nnc ? 1 : 0, nnc ? "NNC" : "C", R, 1);
+    return 2;
+  }
   unsigned kd = r.below(20);
   // kinds: C 6/20, NNC 4/20, BDS 3/20, OS 3/20, BOX 3/20, GRID 1/20
   const char* kind; int domain; bool nnc = false;
@@ -332,36 +415,8 @@ static void one_case(Rng& r, long id, dimension_type maxn) {
   if (n > 2 && domain != 0 && r.chance(1, 2)) n = 2;
   Rel R = gen_rel(r, n, nnc, domain);
   unsigned form = 1 + r.below(2);
-  {
-    OS o; o << "case " << id << " " << kind << " " << form << " " << n << " " << R.tmpl;
-    J.line(o.str());
-  }
-  const dimension_type d = 2 * n;
-  try {
-    if (form == 1) {
-      Constraint_System all = joined(R);
-      switch (kd < 6 ? 0 : kd < 10 ? 1 : kd < 13 ? 2 : kd < 16 ? 3 : kd < 19 ? 4 : 5) {
-        case 0: run_form1(build<C_Polyhedron>(closed_only(all, d), d, true), n); break;
-        case 1: run_form1(build<NNC_Polyhedron>(all, d, true), n); break;
-        case 2: run_form1(build<BDS>(closed_only(all, d), d, false), n); break;
-        case 3: run_form1(build<OSH>(closed_only(all, d), d, false), n); break;
-        case 4: run_form1(build<Rational_Box>(all, d, false), n); break;
-        default: run_form1(build_grid(r, all, d), n); break;
-      }
-    } else {
-      switch (kd < 6 ? 0 : kd < 10 ? 1 : kd < 13 ? 2 : kd < 16 ? 3 : kd < 19 ? 4 : 5) {
-        case 0: run_form2(build<C_Polyhedron>(closed_only(R.before, n), n, true), build<C_Polyhedron>(closed_only(R.after, d), d, true), n); break;
-        case 1: run_form2(build<NNC_Polyhedron>(R.before, n, true), build<NNC_Polyhedron>(R.after, d, true), n); break;
-        case 2: run_form2(build<BDS>(closed_only(R.before, n), n, false), build<BDS>(closed_only(R.after, d), d, false), n); break;
-        case 3: run_form2(build<OSH>(closed_only(R.before, n), n, false), build<OSH>(closed_only(R.after, d), d, false), n); break;
-        case 4: run_form2(build<Rational_Box>(R.before, n, false), build<Rational_Box>(R.after, d, false), n); break;
-        default: { Grid gb = build_grid(r, R.before, n); Grid ga = build_grid(r, R.after, d); run_form2(gb, ga, n); break; }
-      }
-    }
-  } catch (...) {
-    J.line(std::string("x build ") + pplv::exc_class());
-  }
-  J.line("end");
+  emit_case(r, id, kd < 6 ? 0 : kd < 10 ? 1 : kd < 13 ? 2 : kd < 16 ? 3 : kd < 19 ? 4 : 5, kind, R, form);
+  return 1;
 }
 
 // ---- replay: rebuild the pointsets of a recorded case from its constraints() lines -----------
@@ -426,6 +481,7 @@ int main(int argc, char** argv) {
   return pplv::run_batches(first, last, [&](long b) {
     // splitmix64 streams of nearby seeds are the same stream shifted: keep batches 2^20 steps apart
     Rng r(((uint64_t)seed << 40) + ((uint64_t)b << 20));
-    for (long k = 0; k < per; ++k) one_case(r, b * per + k, (dimension_type)maxn);
+    long id = b * per * 2;
+    for (long k = 0; k < per; ++k) id += one_case(r, id, (dimension_type)maxn);
   }, (int)cpu);
 }
